@@ -3,7 +3,7 @@
 use std::borrow::Cow;
 
 use winnow::{
-    ascii::{line_ending, space0, space1, till_line_ending},
+    ascii::{space0, space1, till_line_ending},
     combinator::{
         alt, delimited, dispatch, opt, peek, preceded, repeat, separated, terminated, trace,
     },
@@ -38,7 +38,8 @@ where
 }
 
 /// Parses block of metadata including the last line_end.
-/// Note this consumes at least one line_ending regardless of Metadata existence.
+/// Note this consumes at least one line_ending regardless of Metadata existence,
+/// unless the input ends there: the end of the input is a line ending as well.
 pub fn block_metadata<'i, I, E>(input: &mut I) -> winnow::Result<Vec<syntax::Metadata<'i>>, E>
 where
     I: Stream<Token = char, Slice = &'i str>
@@ -51,9 +52,12 @@ where
     // For now, we can't go with regular repeat because it's hard to have a initial value in Accumulate.
     trace(
         "metadata::block_metadata",
-        dispatch! {peek(any);
-            ';' => separated(1.., line_metadata, space1),
-            _ => preceded(line_ending, repeat(0.., preceded(space1, line_metadata))),
+        dispatch! {peek(opt(any));
+            Some(';') => separated(1.., line_metadata, space1),
+            _ => preceded(
+                character::line_ending_or_eof,
+                repeat(0.., preceded(space1, line_metadata)),
+            ),
         },
     )
     .parse_next(input)
@@ -172,6 +176,15 @@ mod tests {
     fn block_metadata_empty() {
         let input = "\r\n ";
         assert_eq!(expect_parse_ok(block_metadata, input), (" ", vec![]))
+    }
+
+    #[test]
+    fn block_metadata_accepts_end_of_input() {
+        assert_eq!(expect_parse_ok(block_metadata, ""), ("", vec![]));
+        assert_eq!(
+            expect_parse_ok(block_metadata, "; foo"),
+            ("", vec![syntax::Metadata::Comment("foo".into())])
+        );
     }
 
     #[test]
